@@ -70,7 +70,13 @@ def _judge(case, fixed_cuts=None):
         n_conv = ref["final"]["iteration"]
         if n_conv >= LIMIT or n_conv < 2:
             return verdict_ok(nontrivial=False, classes=classes + ["no-interior-point"])
-        cuts = fixed_cuts if fixed_cuts is not None else sorted({1 + (c % (n_conv - 1)) for c in case["cuts"]})
+        def _cut(c):
+            # a third of the interruption points sit right before convergence (n_conv-1, n_conv-2, n_conv-3), the rest anywhere
+            if c % 3 == 0:
+                return max(1, n_conv - 1 - (c // 3) % 3)
+            return 1 + (c % (n_conv - 1))
+
+        cuts = fixed_cuts if fixed_cuts is not None else sorted({_cut(c) for c in case["cuts"]})
         # segments
         prev = 0
         res = None
